@@ -8,6 +8,7 @@ R: crash images materialised at the boundaries, recovered with the real code
    (Index::open, validate_checksum, read back, writer + add + commit + gc); CoreTrace.tla
    judges each recovery against the sequential oracle."""
 import json
+import os
 
 import storage_common as sc
 import tracecheck
@@ -57,11 +58,43 @@ def run(ctx):
             if e["ev"] == "crash_image":
                 ctx.distinct(json.dumps([e["k"], e["choice"]])[:600], True)
     log(f"[R] {nimg} crash images recovered with the real code, {n2}/{len(cruns)} runs accepted")
+    mmap_runs(ctx, 4 if ctx.quick else 40)
     img = next((e for r in cruns for e in r if e["ev"] == "crash_image" and e["mode"] == 2), None)
     if img:
         ctx.sample({"kind": "crash image", "boundary_k": img["k"], "choice": img["choice"],
                     "recovered_docs": img["rec"].get("obs", {}).get("n"), "orphans_after_gc": img["rec"].get("after", {}).get("orphans")})
     ctx.sample({"kind": "storage trace (compacted)", "events": runs[0][:25]})
+
+
+def mmap_runs(ctx, n):
+    """the real MmapDirectory: its system calls (strace -f) drive the same storage model"""
+    import shutil
+    import subprocess
+    import strace2events
+    if not shutil.which("strace"):
+        ctx.assumptions.append("strace not available: MmapDirectory's system calls were not checked in this run")
+        return
+    runs = []
+    for i in range(n):
+        d = f"/tmp/vh_mmap_{os.getpid()}_{i}"
+        st = ctx.path(f"mmap_{i}.strace")
+        cmd = ["strace", "-f", "-qq", "-s", "60000", "-e", "trace=openat,write,pwrite64,fsync,fdatasync,rename,renameat,renameat2,unlink,unlinkat,close,statx,newfstatat,stat",
+               "-o", st, os.path.join(vlib.BIN, "mmap_driver"), "--dir", d, "--seed", str(ctx.seed * 100 + i)]
+        try:
+            p = subprocess.run(cmd, stdout=subprocess.PIPE, stderr=subprocess.PIPE, timeout=120)
+        finally:
+            shutil.rmtree(d, ignore_errors=True)
+        if p.returncode != 0:
+            raise vlib.ToolError(f"mmap_driver under strace failed: {p.stderr.decode()[-500:]}")
+        ev = strace2events.convert(st, d)
+        if not any(e["e"] == "commit" for e in ev) or not any(e["e"] == "meta" for e in ev):
+            raise vlib.ToolError("strace conversion produced no commit / meta event")
+        runs.append(ev)
+        os.remove(st)
+    n_ok = tracecheck.validate_runs(ctx, runs, "mmap", "StorageTrace", "StorageTrace_crash.cfg", owns=sc.owns_c01, key=sc.storage_key, timeout=300)
+    ctx.cov["traces_validated_against_impl"] += n_ok
+    ctx.cov["mmap_directory_syscall_traces"] = {"runs": len(runs), "events": sum(len(r) for r in runs), "accepted": n_ok}
+    log(f"[T] MmapDirectory under strace: {n_ok}/{len(runs)} system-call traces accepted by the storage model")
 
 
 def replay(ctx, path):
